@@ -126,8 +126,16 @@ Definition prop_ok (c : case) : bool :=
   | Some a =>
     (* valid source: formatting succeeds, ... *)
     match c_fout c with OOk => true | _ => false end
-    (* ... the formatted text consists of exactly the tokens of the same API description ... *)
+    (* ... the formatted text consists of exactly the tokens of the same API description: of
+       the one the Go parser built, and of the one the model parser reads off the SOURCE tokens
+       (so a parser that silently drops or alters something is caught on both sides) ... *)
     && toks_eqb (c_ftoks c) (print (norm a))
+    && (if c_scan_ok c then
+          match parse (c_toks c) with
+          | Some am => toks_eqb (c_ftoks c) (print (norm am))
+          | None => true     (* model/Go disagreement: reported through [agrees] *)
+          end
+        else true)
     (* ... and parses (Go parser) to the same description, up to the deleted empty constructs ... *)
     && oapi_eqb (c_fast c) (Some (norm a))
     (* ... and formatting again changes nothing *)
